@@ -9,25 +9,6 @@ package commonmark
 
 // ---------------------------------------------------------------- classifiers (all 256 bytes)
 
-func H_C15_classes(_, _ int) {
-	b := nondetByte()
-	punct := vor(vor(vand(0x21 <= b, b <= 0x2F), vand(0x3A <= b, b <= 0x40)), vor(vand(0x5B <= b, b <= 0x60), vand(0x7B <= b, b <= 0x7E)))
-	check(isASCIIPunctuation(b) == punct, "C15.class.punctuation")
-	hex := vor(vand('0' <= b, b <= '9'), vor(vand('a' <= b, b <= 'f'), vand('A' <= b, b <= 'F')))
-	check(isHex(b) == hex, "C15.class.hex")
-	ws := vor(vor(b == 0x20, b == 0x09), vor(b == 0x0A, b == 0x0D))
-	check(isSpaceTabOrLineEnding(b) == ws, "C15.class.space-tab-eol")
-	ctl := vor(b <= 0x1F, b == 0x7F)
-	check(isASCIIControl(b) == ctl, "C15.class.control")
-	check(isASCIILetter(b) == vor(vand('a' <= b, b <= 'z'), vand('A' <= b, b <= 'Z')), "C15.class.letter")
-	check(isASCIIDigit(b) == vand('0' <= b, b <= '9'), "C15.class.digit")
-	if b < 0x80 {
-		// Unicode whitespace (spec 2.1): Zs, tab, line feed, form feed, carriage return; in ASCII, Zs = {U+0020}
-		uws := vor(vor(b == 0x20, b == 0x09), vor(b == 0x0A, vor(b == 0x0C, b == 0x0D)))
-		check(isUnicodeWhitespace(rune(b)) == uws, "C15.class.unicode-whitespace-ascii")
-		check(isUnicodePunctuation(rune(b)) == punct, "C15.class.unicode-punctuation-ascii")
-	}
-}
 
 // ---------------------------------------------------------------- lines
 
@@ -79,16 +60,6 @@ func refThematicBreak(body []byte) int {
 	return last + 1
 }
 
-func H_C15_thematic(n, _ int) {
-	line, body := nondetLine(n)
-	// the caller strips leading indentation
-	if body > 0 {
-		assume(!isST(line[0]))
-	}
-	want := refThematicBreak(line[:body])
-	got := parseThematicBreak(line)
-	check(got == want, "C15.thematic")
-}
 
 // refATX returns level (0 if not a heading) and the content as [start,end).
 func refATX(body []byte) (level, start, end int) {
@@ -127,21 +98,6 @@ func refATX(body []byte) (level, start, end int) {
 	return level, s, e
 }
 
-func H_C15_atx(n, _ int) {
-	line, body := nondetLine(n)
-	if body > 0 {
-		assume(!isST(line[0]))
-	}
-	wl, ws, we := refATX(line[:body])
-	h := parseATXHeading(line)
-	check(h.level == wl, "C15.atx.level")
-	if wl > 0 && h.level == wl {
-		check(h.content.End-h.content.Start == we-ws, "C15.atx.content-length")
-		if we > ws {
-			check(h.content.Start == ws, "C15.atx.content-start")
-		}
-	}
-}
 
 func refSetext(body []byte) int {
 	if len(body) == 0 {
@@ -169,13 +125,6 @@ func refSetext(body []byte) int {
 	return level
 }
 
-func H_C15_setext(n, _ int) {
-	line, body := nondetLine(n)
-	if body > 0 {
-		assume(!isST(line[0]))
-	}
-	check(parseSetextHeadingUnderline(line) == refSetext(line[:body]), "C15.setext")
-}
 
 // refFence returns fence char (0 if none), length, and info string span (s==e if empty).
 func refFence(body []byte) (c byte, n, s, e int) {
@@ -206,23 +155,6 @@ func refFence(body []byte) (c byte, n, s, e int) {
 	return c, n, s, e
 }
 
-func H_C15_fence(n, _ int) {
-	line, body := nondetLine(n)
-	if body > 0 {
-		assume(!isST(line[0]))
-	}
-	wc, wn, ws, we := refFence(line[:body])
-	f := parseCodeFence(line)
-	check(f.n == wn, "C15.fence.length")
-	if wn > 0 && f.n == wn {
-		check(f.char == wc, "C15.fence.char")
-		if we > ws {
-			check(f.info.Start == ws && f.info.End == we, "C15.fence.info")
-		} else {
-			check(!f.info.IsValid() || f.info.Len() == 0, "C15.fence.info-empty")
-		}
-	}
-}
 
 // refMarker: bullet -,+,* or 1-9 digits followed by . or ), then space, tab or end of line.
 func refMarker(line []byte) (end int, delim byte, num int) {
@@ -254,20 +186,6 @@ func refMarker(line []byte) (end int, delim byte, num int) {
 	return k + 1, line[k], num
 }
 
-func H_C15_marker(n, _ int) {
-	line, body := nondetLine(n)
-	if body > 0 {
-		assume(!isST(line[0]))
-	}
-	we, wd, wn := refMarker(line)
-	m := parseListMarker(line)
-	check(m.end == we, "C15.marker.end")
-	if we > 0 && m.end == we {
-		check(m.delim == wd, "C15.marker.delim")
-		check(m.n == wn, "C15.marker.number")
-		check(vand(m.n >= 0, m.n <= 999999999), "C15.marker.range")
-	}
-}
 
 // ---------------------------------------------------------------- through the public API
 
